@@ -95,6 +95,8 @@ def run(ctx, replay=None):
         if not rep.get('failures'):
             ctx.inconclusive.append('binding self-test: corrupted trace was accepted by the driver')
 
+    for k, t in enumerate(all_traces):
+        t['cfg'] = dict(t['cfg'], Variant=k)      # concretisation variant (keys, step, validator-set history)
     rep = engine.run_driver(ctx, 'voteset', all_traces)
     engine.collect(ctx, rep, all_traces, 'voteset')
     nt = sum(1 for t in all_traces if nontrivial(t))
